@@ -132,7 +132,9 @@ def _set(detector, b, level, shape, p):
             import xarray as xr
             nw = int(p["photon3d"])
             vals = np.stack([px.level_array(level, shape) + w / 64.0 for w in range(nw)])
-            coords = {"wavelength": [500.0 + 10 * w for w in range(nw)]}
+            # photon3d_shift: the wavelength grid moves with the readout (a valid input: a time-dependent scene)
+            w0 = int(detector.pipeline_count) if p.get("photon3d_shift") else 0
+            coords = {"wavelength": [500.0 + 10 * (w + w0) for w in range(nw)]}
             if p.get("photon3d_coords"):     # the model labels rows / columns with positions of its own (valid input)
                 coords["y"] = [5.0 + 10.0 * k for k in range(shape[0])]
                 coords["x"] = [8.0 + 16.0 * k for k in range(shape[1])]
